@@ -387,7 +387,7 @@ fn preceding_non_mark(ap: &Applier, buf: &Buffer, pos: usize) -> Option<usize> {
         flag: IGNORE_MARKS,
         mark_set: None,
     };
-    if pos == 0 { None } else { Some(pos - 1) }
+    ap.prev_unskipped(buf, pos, only_ignore_marks)
 }
 
 /// Type 4.
